@@ -171,6 +171,10 @@ def runDe : P String := do
   | none => pure "noroot"
   | some root =>
     let cfg : DeConfig := { maxSeqSize := maxSeq, allowedDepth := depth }
+    -- `rust_decimal::Decimal::to_f64` is a parameter of the model without an executable stand-in
+    let decimalAsF64 := (match hint with | .f64 => true | _ => false) &&
+      (match root with | .decimal _ _ _ | .bigDecimal => true | _ => false)
+    if decimalAsF64 then pure "skip decimal read through deserialize_f64 (rust_decimal::to_f64 not modelled)" else
     pure (fmtDe (deOne cfg S root depth hint (mk bs)))
 
 /-- longest sequence / map delivered anywhere in an outcome -/
